@@ -456,13 +456,19 @@ func accountLexParse(c Case, pi parseInfo, f *pk.Failure, depthHint int) {
 	if len(pi.lex.toks) > 0 {
 		pk.Class("reached-parser")
 	}
+	kind := strings.SplitN(c.Kind, ":", 2)[0]
 	switch {
 	case pi.hard != nil:
 		pk.Class("parse:hard-error")
+		pk.Class("parse:hard-error:" + kind)
+		if strings.Contains(pi.hard.Message, "%!") {
+			pk.Class("note:syntax-error-message-has-fmt-error") // e.g. TokenKind.String() panics for '&' inside Sprintf; not this property
+		}
 	case pi.soft > 0:
 		pk.Class("parse:soft-errors-only")
 	default:
 		pk.Class("parse:clean")
+		pk.Class("parse:clean:" + kind)
 	}
 	if pi.tokensOK >= 5 {
 		pk.NonTrivial("lexparse\x00"+c.Text, sample{Kind: c.Kind, Variant: "lexparse", Text: clip(c.Text, 200), Tokens: pi.tokensOK})
